@@ -259,7 +259,7 @@ def run_scenario(sc, scratch):
     errf.close()
     out = {"flags": [], "steps": []}
     try:
-        rc = p.wait(timeout=90)
+        rc = p.wait(timeout=40)
     except subprocess.TimeoutExpired:
         p.kill()
         rc = p.wait()
